@@ -651,3 +651,44 @@ theorem returning_rejects_cleanly (s : St) (t : Term) (isStar : Bool) (hs : s.re
   simp [returnField, hs, h, B.raise]
 
 end Pypika.B
+
+namespace Pypika.B
+open Pypika
+
+/-! ## C04 / C13 — the select list keeps its terms in call order -/
+
+def noStar : Term → Bool | .star _ => false | _ => true
+
+theorem selectOne_term_append (s : St) (t : Term) (hs : s.selectStar = false) (ht : s.starTables = []) (hn : noStar t = true) :
+    selectOne s (.term t) = .ok { s with r := { s.r with selects := s.r.selects ++ [t] } } := by
+  cases t <;> simp [noStar] at hn <;> simp [selectOne, selectField, hs, ht, pure, Except.pure]
+
+/-- **select terms are kept in call order** (C04 / C13): as long as no star has been selected, `select(t1, …, tn)` of
+    non-star terms appends exactly those terms, in order, and changes nothing else — for any receiver state -/
+theorem select_terms_append (s : St) (ts : List Term) (hs : s.selectStar = false) (ht : s.starTables = [])
+    (hn : ∀ t ∈ ts, noStar t = true) :
+    step s (.select (ts.map Arg.term)) = .ok { s with r := { s.r with selects := s.r.selects ++ ts } } := by
+  simp only [step]
+  induction ts generalizing s with
+  | nil => simp [selectAll, pure, Except.pure]
+  | cons t ts ih =>
+    simp only [List.map, selectAll, bind, Except.bind]
+    rw [selectOne_term_append s t hs ht (hn t (by simp))]
+    refine (ih { s with r := { s.r with selects := s.r.selects ++ [t] } } hs ht (fun x hx => hn x (by simp [hx]))).trans ?_
+    simp [List.append_assoc]
+
+/-- after `select('*')` further column selections are ignored (documented: positional by design) -/
+theorem select_after_star_ignored (s : St) (n : Str) (a : Option Str) (tbl : Option TRef) (hs : s.selectStar = true) :
+    step s (.select [.term (.field n a tbl)]) = .ok s := by
+  simp [step, selectAll, selectOne, selectField, hs, bind, Except.bind, pure, Except.pure]
+
+/-- two `select` calls are one call with the concatenated term list -/
+theorem select_select (s : St) (ts us : List Term) (hs : s.selectStar = false) (ht : s.starTables = [])
+    (hn : ∀ t ∈ ts ++ us, noStar t = true) :
+    (step s (.select (ts.map Arg.term)) >>= fun x => step x (.select (us.map Arg.term))) =
+      step s (.select ((ts ++ us).map Arg.term)) := by
+  rw [select_terms_append s ts hs ht (fun t h => hn t (by simp [h])), select_terms_append s (ts ++ us) hs ht hn]
+  simp only [bind, Except.bind]
+  refine (select_terms_append { s with r := { s.r with selects := s.r.selects ++ ts } } us hs ht (fun t h => hn t (by simp [h]))).trans ?_
+  simp [List.append_assoc]
+end Pypika.B
